@@ -1,15 +1,8 @@
 #!/bin/sh
-# Applies every seeded change under /verif/seeded to /repo, runs the checks of the property it
-# breaks (meta.json "property", or the name prefix), records what was reported, and reverts.
+# Evaluates every seeded change under /verif/seeded against the quick check of its property, each in
+# a scratch worktree (see eval_one_seed.sh). The evidence files under /verif/evidence are rewritten by
+# these runs: run tools/run_all.sh afterwards to have them describe the unchanged tree again.
 cd /verif
 for d in seeded/*/; do
-  n=$(basename $d)
-  prop=$(echo $n | cut -c1-3)
-  [ -n "$(git -C /repo status --short)" ] && { echo "/repo not clean"; exit 2; }
-  git -C /repo apply /verif/$d/patch.diff || { echo "$n: patch does not apply"; continue; }
-  out=$(bin/gocv check -property $prop -tier quick 2>&1)
-  git -C /repo checkout -- .
-  echo "$out" | grep -E "VIOLATION|ENGINE-ERROR" | sed 's/replay=[^ ]* //' | cut -c1-200 > $d/detection.txt
-  echo "$out" | tail -1 >> $d/detection.txt
-  if grep -q VIOLATION $d/detection.txt; then echo "$n: DETECTED ($(grep -c VIOLATION $d/detection.txt) obligations)"; else echo "$n: MISSED"; fi
+  tools/eval_one_seed.sh $(basename $d) | head -1
 done
